@@ -350,6 +350,9 @@ def run(E: Engine, rep: Report, tier: str) -> dict:
     vch = E.method(SEQ, "_validate_channel")
     wf_raises = [l for l in S(E, vch, inline=False).logged("raise") if mentions(l.cond, "_waiting_for_first_pulse")]
     if not wf_raises:
+        # (the guard may sit in a private boolean helper: read it on the inlined normal form)
+        wf_raises = [l for l in S(E, vch).logged("raise") if l.fn == vch.short and mentions(l.cond, "_waiting_for_first_pulse")]
+    if not wf_raises:
         raise AnalysisError("anchor: Sequence._validate_channel no longer has the SLM-mask DMM guard")
     for l in wf_raises:
         np_ = any(is_(x, "not self.is_parametrized()") is not None or is_(x, "self._building") is not None for x in sym.conj_of(l.cond))
